@@ -20,14 +20,24 @@ import (
 
 const appxSigName = "AppxSignature.p7x"
 
-func appxWindows(z *zArchive, n int) ([]Win, string) {
+func appxWindows(z *zArchive, n int, thorough bool) ([]Win, string) {
 	var ws []Win
-	ws = append(ws, Win{0, 4096}, Win{n - 4096, 4096})
+	edge := 1024
+	if thorough {
+		edge = 4096
+	}
+	ws = append(ws, Win{0, edge}, Win{n - edge, edge})
 	for _, e := range z.Entries {
 		ws = append(ws, e.LH, e.Tail)
 		switch e.Name {
-		case "AppxManifest.xml", "AppxBlockMap.xml", "[Content_Types].xml", "AppxMetadata/CodeIntegrity.cat", appxSigName:
+		case "AppxBlockMap.xml", "[Content_Types].xml", "AppxMetadata/CodeIntegrity.cat", appxSigName:
 			ws = append(ws, e.Data)
+		case "AppxManifest.xml":
+			if thorough {
+				ws = append(ws, e.Data)
+			} else {
+				ws = append(ws, Win{e.Data.Off, 64}, Win{e.Data.End() - 64, 64})
+			}
 		default:
 			// first and last 64 bytes of every other member's data
 			if e.Data.Len <= 128 {
@@ -38,10 +48,18 @@ func appxWindows(z *zArchive, n int) ([]Win, string) {
 		}
 	}
 	ws = append(ws, z.CD, z.EOCD, z.EOCD64, z.Loc64)
-	return ws, "first 4 KiB, last 4 KiB, every local header and data descriptor, the complete records of AppxManifest.xml, AppxBlockMap.xml, [Content_Types].xml, CodeIntegrity.cat and AppxSignature.p7x, the first and last 64 data bytes of every other member, the whole central directory and all end records"
+	note := "first and last 1 KiB of the file, every local header and data descriptor, the complete records of AppxBlockMap.xml, [Content_Types].xml, CodeIntegrity.cat and AppxSignature.p7x, the first and last 64 data bytes of every other member, the whole central directory and all end records"
+	if thorough {
+		note = "first and last 4 KiB of the file, every local header and data descriptor, the complete records of AppxManifest.xml, AppxBlockMap.xml, [Content_Types].xml, CodeIntegrity.cat and AppxSignature.p7x, the first and last 64 data bytes of every other member, the whole central directory and all end records"
+	}
+	return ws, note
 }
 
-func buildAPPX(env *Env, v Variant) ([]*Artifact, error) {
+func buildAPPX(thorough bool) func(env *Env, v Variant) ([]*Artifact, error) {
+	return func(env *Env, v Variant) ([]*Artifact, error) { return buildAPPX1(env, v, thorough) }
+}
+
+func buildAPPX1(env *Env, v Variant, thorough bool) ([]*Artifact, error) {
 	a, err := env.signFixture("appx", "App1_1.0.3.0_x64.appx", "App1_1.0.3.0_x64.appx", "", v, nil)
 	if err != nil {
 		return nil, err
@@ -97,7 +115,7 @@ func buildAPPX(env *Env, v Variant) ([]*Artifact, error) {
 	}
 	m.SetLayer(l)
 	a.Map = m
-	a.Windows, a.WindowNote = appxWindows(z, len(s))
+	a.Windows, a.WindowNote = appxWindows(z, len(s), thorough)
 	if err := zipSelfCheck(z, a.ID()); err != nil {
 		a.Notes = append(a.Notes, err.Error())
 	}
